@@ -120,7 +120,7 @@ func checkC18(c *Check) {
 	keyedByElem := func(mapField, owner string) (res types.Object, okVar types.Object, at Pt, found bool) {
 		for _, pt := range rbld.F.Points() {
 			as, ok := pt.Node().(*ast.AssignStmt)
-			if !ok || len(as.Rhs) != 1 || len(as.Lhs) < 1 || !posIn(loop.Body, as.Pos()) {
+			if !ok || len(as.Rhs) != 1 || len(as.Lhs) < 1 || !within(loop.Body, as) {
 				continue
 			}
 			ix, ok := ast.Unparen(as.Rhs[0]).(*ast.IndexExpr)
@@ -409,7 +409,7 @@ func checkC18(c *Check) {
 					n++
 					// the default may be chosen into a local first: every value that local is ever given
 					vals := []ast.Expr{s.Value}
-					if lv, ok := objOf(ti, s.Value).(*types.Var); ok && !lv.IsField() && posIn(ts.FI.Decl.Body, lv.Pos()) {
+					if lv, ok := objOf(ti, s.Value).(*types.Var); ok && !lv.IsField() && localIn(ts.FI.Decl.Body, lv) {
 						vals = nil
 						ast.Inspect(ts.FI.Decl.Body, func(y ast.Node) bool {
 							if as, ok := y.(*ast.AssignStmt); ok && len(as.Lhs) == len(as.Rhs) {
@@ -651,7 +651,7 @@ func c18Format(c *Check) {
 	}
 	resolve := func(e ast.Expr) (string, types.Object) {
 		e = ast.Unparen(e)
-		if o, ok := objOf(info, e).(*types.Var); ok && !o.IsField() && posIn(r.FI.Decl.Body, o.Pos()) {
+		if o, ok := objOf(info, e).(*types.Var); ok && !o.IsField() && localIn(r.FI.Decl.Body, o) {
 			if def, n := localDef(info, r.FI.Decl.Body, o); n == 1 && def != nil {
 				return exprStr(def), nil
 			}
